@@ -6,7 +6,7 @@ from ..ref import ec, wire
 
 ID = "C04"
 RULE = (
-    "cases: histories over the mutation API (add/prepend/insert/set input and output, set_version, set_nlocktime, clone) interleaved with sighash/sign calls of "
+    "cases: histories over the mutation API (add/prepend/insert/set input and output, set_version, set_nlocktime, clone) interleaved with sighash/sign/hash_inputs calls of "
     "every cache-filling flag class, executed on ONE live Transaction; bounded-exhaustive over a 25-symbol alphabet (incl. replacements that change exactly one field: sequence, vout, unlocking script, output value, output script) up to depth 3 (quick) / 4 (thorough) plus long random histories. "
     "After EVERY step three probing sighash calls run on a clone of the live object and on a fresh parse of its serialisation; every sighash/sign step is also "
     "repeated on a fresh parse. non-trivial = distinct history containing >=1 mutator after >=1 cache-filling call"
@@ -26,8 +26,10 @@ ALPHABET = [
     "set_input_seq", "set_input_vout", "set_input_script", "set_output_value", "set_output_script",
     # bulk appends and inserts exactly at the end position (separate code paths from add_* / insert-in-the-middle)
     "add_inputs2", "add_outputs2", "insert_input_end", "insert_output_end",
+    # the public hashPrevouts accessor: fills the first cache slot without any sighash call
+    "hi41",
 ]
-FILLERS = {"sh41", "sh42", "shc1", "sh43"}
+FILLERS = {"sh41", "sh42", "shc1", "sh43", "hi41"}
 PROBES = [
     {"op": "sighash", "flag": 0x41, "idx": 0, "script": "76a9", "value": 1234567},
     {"op": "sighash", "flag": 0xC1, "idx": 1, "script": "ac", "value": 0},
@@ -138,6 +140,8 @@ def step_of(sym, pos, model, r=None):
         return {"op": sym, "v": 0x0A0B0C00 + pos, "adopt": bool(pos & 1)}
     if sym == "clone":
         return {"op": "clone"}
+    if sym.startswith("hi"):
+        return {"op": "hash_inputs", "flag": int(sym[2:], 16)}
     if sym.startswith("sh") or sym.startswith("sg"):
         if n_in == 0:
             return None
@@ -240,6 +244,13 @@ def judge(ctx, case):
             if rec["live"] != rec["fresh"]:
                 kind = "preimage" if op == "sighash" else "signature"
                 ctx.viol("%s on the live object differs from the same call on a freshly parsed copy (flag 0x%02x)" % (kind, st["flag"]), {"live": str(rec["live"])[:300], "fresh": str(rec["fresh"])[:300]})
+        elif op == "hash_inputs":
+            ctx.ev()
+            filled = True
+            t = wire.tx_decode(bytes.fromhex(rec["bytes"]))
+            exp = wire.sha256d(b"".join(i["txid_wire"] + i["vout"].to_bytes(4, "little") for i in t["ins"])).hex()
+            if rec["hash_inputs"] != exp:
+                ctx.viol("Transaction::hash_inputs on the live object is not the double SHA-256 of the current outpoints", {"got": rec["hash_inputs"], "expected": exp})
         elif op != "clone" and filled:
             mut_after_fill = True
         slots = rec["slots"]
